@@ -1,6 +1,7 @@
 package main
 
 import (
+	"github.com/pip-services3-gox/pip-services3-expressions-gox/calculator/functions"
 	"fmt"
 	"github.com/pip-services3-gox/pip-services3-expressions-gox/calculator"
 	"github.com/pip-services3-gox/pip-services3-expressions-gox/calculator/variables"
@@ -138,6 +139,8 @@ func propC03(c *Ctx) {
 			}
 		}
 	}
+	// user-supplied functions failing in every way a Go function can: the failure surfaces as an error
+	runUserFunctionFailures(c)
 	// object histories: no sequence of calls on one calculator may panic either
 	for i := 0; i < n/10+20; i++ {
 		runCalcHistory(c, g)
@@ -146,6 +149,60 @@ func propC03(c *Ctx) {
 		crashTemplates(c)
 	}
 	c.Notes = append(c.Notes, fmt.Sprintf("exhaustive: every string of length <= %d over 24 significant expression characters through SetExpression and, when accepted, Evaluate under up to 6 boundary variable assignments; %d rounds of lexeme soup, character soup (incl. astral, U+FFFF, NUL), generated trees (all function families) under boundary environments (extreme integers, NaN/Inf, empty/non-ASCII strings, empty arrays, nulls, time values) with both managers, and the 4 tokenizers x random option sets on inputs incl. invalid UTF-8; every call classified value / error / panic / neither / both / hang", maxL, n))
+}
+
+type weird struct{ a, b int }
+
+func runUserFunctionFailures(c *Ctx) {
+	var nilMap map[string]int
+	var nilPtr *weird
+	fails := map[string]func(){
+		"err":       nil, // returns an error (handled separately)
+		"str":       func() { panic("text") },
+		"error":     func() { panic(fmt.Errorf("wrapped")) },
+		"int":       func() { panic(42) },
+		"float":     func() { panic(1.5) },
+		"struct":    func() { panic(weird{1, 2}) },
+		"ptr":       func() { panic(&weird{}) },
+		"nilmap":    func() { nilMap["k"] = 1 },
+		"nilderef":  func() { _ = nilPtr.a },
+		"index":     func() { _ = []int{}[c.Rng.Intn(1)+1] },
+		"stringer":  func() { panic(time.Second) },
+		"runeslice": func() { panic([]rune("x")) },
+	}
+	for name, f := range fails {
+		for _, expr := range []string{"Boom()", "1 + Boom()", "Boom() = 1", "NOT Boom()", "Max(1, Boom())", "Array(1, Boom())[0]", "Boom(1, 2) + Boom()"} {
+			op := "userfn " + name + " " + strRunes(expr)
+			c.record(op, true)
+			c.count("user-function-failure")
+			fn := f
+			st := safeCallT(3*time.Second, func() string {
+				calc := calculator.NewExpressionCalculator()
+				funcs := functions.NewDefaultFunctionCollection()
+				funcs.Add(functions.NewDelegatedFunction("Boom", func(p []*variants.Variant, o variants.IVariantOperations) (*variants.Variant, error) {
+					if fn == nil {
+						return nil, fmt.Errorf("plain error")
+					}
+					fn()
+					return variants.VariantFromInteger(1), nil
+				}))
+				if err := calc.SetExpression(expr); err != nil {
+					return "parse-err"
+				}
+				r, err := calc.EvaluateUsingVariablesAndFunctions(nil, funcs)
+				if (r == nil) == (err == nil) {
+					return "neither-or-both"
+				}
+				if err == nil {
+					return "value-although-the-function-failed"
+				}
+				return ""
+			})
+			if st != "" {
+				c.fail(Failure{Kind: "oracle", Op: op, Impl: st, Note: fmt.Sprintf("a user function failing with %s inside %q must surface as an error of the evaluation", name, expr)})
+			}
+		}
+	}
 }
 
 var crashTemplates func(c *Ctx)
